@@ -81,3 +81,52 @@ Proof.
   rewrite Efr, <- (sdata_good _ _ Hch Gn).
   exact (FlacReaders.Props_Damaged.C07_damaged_sample_reader F blocks g rest ops Hs Hw Hr Hno Hcs pre x post Htr Hpre).
 Qed.
+
+(* the byte reader (either byte order) and the channel reader (any channel) over the same damaged stream *)
+Theorem damaged_file_is_read_bytes_channels : forall file si frames err,
+  CS.dec_stream file = Some (si, frames, CS.EndErr err) -> 1 <= A.si_channels si ->
+  exists blocks, frames = map CS.interleave_frame blocks /\
+    (forall (F : R.file) g rest ops,
+      R.f_slots F = map R.SFrame blocks ++ R.SBad g :: rest -> R.f_channels F = A.si_channels si ->
+      RS.sumlen (map R.SFrame blocks) < FlacReaders.RNum.U64 ->
+      1 <= Ser.bytes_per_sample (R.f_bps F) <= 4 ->
+      RS.no_bseek ops -> Forall RD.b_consume_ok (snd (FlacReaders.Seek.byte_run F ops)) ->
+      forall pre x post, snd (FlacReaders.Seek.byte_run F ops) = pre ++ x :: post ->
+        Forall (fun y => RD.failed (snd y) = false) pre ->
+        RS.prefix (RD.b_delivered pre ++ RD.b_shown x)
+                  (Ser.ser (R.f_endian F) (Ser.bytes_per_sample (R.f_bps F)) (concat frames)) /\
+        (forall p, snd x <> R.OPanic p) /\
+        (snd x = R.OErr ECrc16 ->
+           RD.b_delivered pre ++ R.br_buf (fst (fst x)) =
+           Ser.ser (R.f_endian F) (Ser.bytes_per_sample (R.f_bps F)) (concat frames))) /\
+    (forall (F : R.file) g rest c ops,
+      R.f_slots F = map R.SFrame blocks ++ R.SBad g :: rest -> R.f_channels F = A.si_channels si ->
+      RS.sumlen (map R.SFrame blocks) < FlacReaders.RNum.U64 ->
+      (c < N.to_nat (A.si_channels si))%nat -> R.f_rev F = R.Repaired ->
+      RS.no_cseek ops -> Forall RD.c_consume_ok (snd (FlacReaders.Seek.chan_run F ops)) ->
+      forall pre x post, snd (FlacReaders.Seek.chan_run F ops) = pre ++ x :: post ->
+        Forall (fun y => RD.failed (snd y) = false) pre ->
+        RS.prefix (RD.c_delivered c pre ++ RD.c_shown c x) (concat (map (fun b => nth c b []) blocks)) /\
+        (forall p, snd x <> R.OPanic p) /\
+        (snd x = R.OErr ECrc16 ->
+           RD.c_delivered c pre ++ RD.c_view c (fst (fst x)) = concat (map (fun b => nth c b []) blocks))).
+Proof.
+  intros file si frames err Hd Hch.
+  unfold CS.dec_stream in Hd. destruct (CS.read_metadata_min file) as [[si' audio]|]; [|discriminate].
+  pose proof (dec_frames_of_blocks (S (length audio)) si' 0 audio []) as Hfb. cbn [map] in Hfb.
+  destruct (CS.dec_frames (S (length audio)) si' 0 audio []) as [fr en] eqn:Ef. injection Hd as -> -> ->.
+  destruct (dec_blocks (S (length audio)) si 0 audio []) as [blocks en'] eqn:Eb. cbn [fst snd] in Hfb. injection Hfb as Efr Een.
+  destruct (dec_blocks_good si Hch _ _ _ _ _ _ Eb) as (new & Enew & Gn). cbn [rev app] in Enew. subst new.
+  exists blocks. split; [exact Efr|].
+  assert (Hw : forall F : R.file, R.f_channels F = A.si_channels si -> Forall (RS.wf_frame (R.f_channels F)) blocks).
+  { intros F Hc. rewrite Hc. eapply Forall_impl; [|exact Gn]. intros b Gb. apply (good_block_wf _ _ Hch Gb). }
+  split.
+  - intros F g rest ops Hs Hc Hr Hwd Hno Hcs pre x post Htr Hpre.
+    rewrite Efr, <- (sdata_good _ _ Hch Gn).
+    exact (FlacReaders.Props_Damaged.C07_damaged_byte_reader F blocks g rest ops Hs (Hw F Hc) Hr Hwd Hno Hcs pre x post Htr Hpre).
+  - intros F g rest c ops Hs Hc Hr Hcc Hrev Hno Hcs pre x post Htr Hpre.
+    assert (Ec : RS.cdata c (map R.SFrame blocks) = concat (map (fun b => nth c b []) blocks)).
+    { unfold RS.cdata. rewrite slot_frames. reflexivity. }
+    rewrite <- Ec. rewrite <- Hc in Hcc.
+    exact (FlacReaders.Props_Damaged.C07_damaged_channel_reader F blocks g rest c ops Hs (Hw F Hc) Hr Hcc Hrev Hno Hcs pre x post Htr Hpre).
+Qed.
